@@ -38,6 +38,26 @@ Proof.
 Qed.
 Print Assumptions C11_fifo.
 
+(* "exactly the messages the other side sent, once each": with queues of capacity >= 1 the shim cannot get stuck while a
+   message is under way (some step of handler, writer, reader or poll is enabled), every such step lowers the weighted
+   count `pending` of messages under way, and once it is zero both sides have received exactly what the other side
+   sent.  So from every reachable state at most `pending` internal steps deliver everything, whatever the batching. *)
+Theorem C11_delivery : forall cap_c cap_s server_msgs ls s,
+  1 <= cap_c -> 1 <= cap_s ->
+  qrun cap_c cap_s (q_init server_msgs) ls = Some s ->
+  (0 < pending s -> exists l s', internal l = true /\ qstep cap_c cap_s s l = Some s') /\
+  (forall l s', internal l = true -> qstep cap_c cap_s s l = Some s' -> pending s' < pending s) /\
+  (pending s = 0 -> to_backend s = posted ls /\ polled s = server_msgs).
+Proof.
+  intros cc cs sm ls s Hc Hs H. split; [|split].
+  - exact (pending_enabled cc cs s Hc Hs).
+  - intros l s'. exact (internal_step_decreases cc cs s l s').
+  - intros Hz. destruct (pending_zero s Hz) as (E1 & E2 & E3 & E4).
+    destruct (C11_fifo cc cs sm ls s H) as [F1 F2].
+    rewrite E1, E2 in F1. rewrite E3, E4 in F2. rewrite !app_nil_r in F1, F2. split; assumption.
+Qed.
+Print Assumptions C11_delivery.
+
 (* header injection: only objects with an object at resource.headers change, and only by
    gaining entries for header names that are not there yet *)
 Theorem C11_inject : forall hdrs m m', inject hdrs m = Some m' ->
@@ -55,4 +75,17 @@ Example C11_example :
   | Some s => to_backend s = [m1; m2] /\ polled s = [m2; m1]
   | None => False
   end /\ parse_client 1 (serialize 1 m2) = Some m2.
+Proof. vm_compute. repeat split; reflexivity. Qed.
+
+(* non-vacuity of C11_delivery: seven units of work under way, seven internal steps deliver everything *)
+Example C11_delivery_example :
+  let m1 := {| m_type := MText; m_data := [104; 105] |} in let m2 := {| m_type := MBinary; m_data := [0; 255; 16] |} in
+  match qrun 1 1 (q_init [m2; m1]) [QPost [m1; m2]; QEnq] with
+  | Some s => pending s = 7 /\
+      match qrun 1 1 s [QWriter; QEnq; QWriter; QReader; QPoll 1; QReader; QPoll 1] with
+      | Some s' => pending s' = 0 /\ to_backend s' = [m1; m2] /\ polled s' = [m2; m1]
+      | None => False
+      end
+  | None => False
+  end.
 Proof. vm_compute. repeat split; reflexivity. Qed.
